@@ -5,8 +5,9 @@ neighbourhood uses").  This job closes that assumption: RSSchedParallelNeighborh
 functions, `segments`, the overhead / length filters) is executed from the solver crate's MIR on the same base schedules,
 with production parameters (segment limit 3 h, overhead threshold 10 min), and with the four `apply` bodies replaced by
 recorders that answer Err (so the enumeration runs to its end).  Obligations: generating never panics; every argument
-tuple the real code hands to `apply` is in swap_menu's set (so it is covered by a swap job); a maintenance slot is only
-offered while it has a free track (the precondition the swap jobs assume); provider and receiver differ."""
+tuple the real code hands to `apply` is in swap_menu's set (otherwise the run is *inconclusive*: a coverage gap of the swap jobs,
+not a property clause); where the enumeration offers a maintenance slot that may be full - the case the swap jobs assume away -
+the REAL SpawnVehicleForMaintenance::apply is executed on the spot: it must not panic and an Ok result must respect the tracks."""
 import z3
 from ..core import *
 from .. import models as M, netbuild as NB
@@ -33,31 +34,48 @@ def jobs(tier):
 
 def job_neighborhood(name, tier, variant, prefix, mode='on'):
     rec = []
+    ctx = {}; over = []
     def recorder(kind):
         def m(ex, callee, args):
-            sw = ex.strip(args[0]); rec.append((kind, sw)); return err(StrVal('recorded'))
+            sw = ex.strip(args[0]); rec.append((kind, sw))
+            if kind == 'swap_spawn_maint' and 'net' in ctx:
+                # the swap jobs assume that a slot is only offered while a track is free.  Where the enumeration offers a slot that
+                # may be full, that assumption does not cover the call: execute the REAL apply here (a panic propagates as a
+                # violation of "never panics"; an Ok result must still respect the track limit)
+                net = ctx['net']; slot = conc(F(sw, 'SpawnVehicleForMaintenance', 'maintenance_slot').fields[0])
+                nform = len(ctx['st']['formations'].get(slot, []))
+                if not ex.decide(Z(nform) < net.info[slot]['tracks']):
+                    ex.covers.add('full slot offered')
+                    r = ex.call_fn(real_spawn_apply, [args[0], args[1]])
+                    if r.variant == 0:
+                        after = read_schedule(ex, r.fields[0])
+                        over.append(Z(len(after['formations'].get(slot, []))) <= net.info[slot]['tracks'])
+            return err(StrVal('recorded'))
         return m
     models = RAYON + [(r'^<PathExchange as Swap>::apply$', recorder('swap_path_exchange')), (r'^<SpawnVehicleForMaintenance as Swap>::apply$', recorder('swap_spawn_maint')),
                       (r'^<AddTripForHitchHiking as Swap>::apply$', recorder('swap_hitch')), (r'^<RemoveSingleNode as Swap>::apply$', recorder('swap_remove_single'))] + LISTED_MODELS
     J = JobCtx(name, CRATES, mode=mode, extra_models=models); ex = J.ex
+    real = [v[0] for k, v in ex.fns.items() if 'swaps/spawn_vehicle_for_maintenance.rs' in k and k.endswith('>::apply')]
+    if len(real) != 1: raise Unsupported('SpawnVehicleForMaintenance::apply: %d candidates' % len(real))
+    real_spawn_apply = real[0]
     nb_fn = [v[0] for k, v in ex.fns.items() if 'local_search/neighborhood/mod.rs' in k and k.endswith('>::neighbors_of')]
     if len(nb_fn) != 1: raise Unsupported('RSSchedParallelNeighborhood::neighbors_of: %d candidates' % len(nb_fn))
     def node_of(net, v): return conc(v.fields[0])
     def body():
-        ex.pc_global = []; ex.inputs = {}; del rec[:]
+        ex.pc_global = []; ex.inputs = {}; del rec[:]; del over[:]; ctx.pop('st', None)
         net = NB.build(ex, mk_spec(tier, variant)); ctx['net'] = net
         s = ex.call('Schedule::empty', [net.arc]); st = read_schedule(ex, s)
         for op in prefix:
             r = apply_op(ex, net, s, tuple(op)); ns, extra = unpack(r)
             if ns is None: raise PathAbort()
             s = ns; st = read_schedule(ex, s)
+        ctx['st'] = st
         nb = NB.S('RSSchedParallelNeighborhood', segment_length_limit=some(NB.dur(3 * 3600)), overhead_threshold=some(NB.dur(600)), network=net.arc)
         swi = NB.S('ScheduleWithInfo', schedule=s, last_swap_info=Agg('SwapInfo', ENUMS['SwapInfo'].index('NoSwap'), []), print_text=StrVal('base'))
         it = ex.call_fn(nb_fn[0], [Ref(Cell(nb)), Ref(Cell(swi))])
         it = M.to_iter(ex, it); n = 0
         while it.next(ex) is not None: n += 1
-        return net, st, list(rec), n
-    ctx = {}
+        return net, st, list(rec), n, list(over)
     def scenario(net, m):
         ops = [dict(op='schedule_empty', name='S0')]
         for i, op in enumerate(prefix): ops.append(SO.replay_op(net, tuple(op), 'S%d' % i, 'S%d' % (i + 1)))
@@ -69,7 +87,7 @@ def job_neighborhood(name, tier, variant, prefix, mode='on'):
                 if net is None: return None
                 return dict(signature='panic while generating the neighbourhood: %s' % msg[:80], what='RSSchedParallelNeighborhood::neighbors_of panics (%s)' % msg[:160], scenario=scenario(net, m), expect=dict(panic=True), neighbourhood=True)
             J.panic(pc, r, clause='candidate: generating the neighbourhood does not panic', mk_cex=mkp); continue
-        net, st, got, n = r; J.reached += 1
+        net, st, got, n, over_ = r; J.reached += 1
         menu = set(swap_menu(net, st)); bad = []; free = []
         for kind, sw in got:
             if kind == 'swap_path_exchange':
@@ -82,8 +100,10 @@ def job_neighborhood(name, tier, variant, prefix, mode='on'):
             else: t = (kind, node_of(net, F(sw, 'RemoveSingleNode', 'node')), vkey(F(sw, 'RemoveSingleNode', 'vehicle')))
             if t not in menu: bad.append(('not in the argument sets of the swap jobs', t))
             J.covers.add('generated:' + kind)
-        J.prove(pc, not bad, 'candidate: every argument tuple the neighbourhood hands to a swap is one the swap jobs cover (%s)' % (bad[:2],) if bad else 'candidate: every argument tuple the neighbourhood hands to a swap is one the swap jobs cover')
-        J.prove(pc, z_and(*free) if free else True, 'candidate: a maintenance slot is only offered while it has a free track')
+        # coverage of my own swap jobs, not a clause of the property: a tuple outside their argument sets makes the run inconclusive
+        if bad: J.inconclusive.append('%s: the neighbourhood hands a swap an argument tuple that no swap job covers: %s' % (name, bad[:2]))
+        else: J.obligations += 1; J.discharged += 1
+        J.prove(pc, z_and(*over_) if over_ else True, 'candidate: a maintenance candidate never exceeds the slot\'s tracks (also when the neighbourhood offers a full slot)')
         J.prove(pc, n == 0, 'candidate: refused swaps (Err) yield no candidate')
         J.sample('neighbors_of on base %s: %d swaps constructed %s' % ([o[0] for o in prefix], len(got), sorted(set(k for k, _ in got))))
     return J.result()
